@@ -198,7 +198,6 @@ Proof. reflexivity. Qed.
 Section Proc.
   Variable S : Z -> Z.
   Variable F : option Z.
-  Hypothesis F_nonneg : forall f, F = Some f -> 0 <= f.
 
   (* the segment is consistent with the peer's stream.  [d] = signed 32-bit distance of its
      sequence number from RCV.NXT, so every 32-bit sequence number is allowed; only segments within
@@ -247,7 +246,8 @@ Section Proc.
         s_remote_last_win s' = tcp_scaled_window s')) /\
       (* FIN bookkeeping: a payload that starts at RCV.NXT and ends at F is appended completely *)
       (forall f, off = 0 -> F = Some f -> c + rb_len (s_rx_buffer s) + l_len payload = f ->
-                 rb_len (s_rx_buffer s') = rb_len (s_rx_buffer s) + l_len payload).
+                 rb_len (s_rx_buffer s') = rb_len (s_rx_buffer s) + l_len payload) /\
+      (l_len payload = 0 -> s' = s).
   Proof.
     intros Hb Hmono Hoff Hfit HW Hpay HFpay Hres.
     pose proof (l_len_nonneg payload) as Hl0.
@@ -257,14 +257,14 @@ Section Proc.
       repeat (split; [reflexivity|]). split; [eapply buf_inv_mono; eassumption|].
       split; [lia|]. split; [exact I|]. split.
       - left. repeat (split; [reflexivity|]). left. reflexivity.
-      - intros f _ _ Hf. lia. }
+      - split; [intros f _ _ Hf; lia | reflexivity]. }
     fold asm_cap in Hres.
     destruct (asm_atrf asm_cap (s_assembler s) off (l_len payload)) as (a', [contig|]) eqn:Hat.
     2:{ subst res. exists s, None, 191. split; [reflexivity|].
         repeat (split; [reflexivity|]). split; [eapply buf_inv_mono; eassumption|].
         split; [lia|]. split; [exact I|]. split.
         - left. repeat (split; [reflexivity|]). left. reflexivity.
-        - intros f Hoff0 Hf Heq. exfalso.
+        - split; [|reflexivity]. intros f Hoff0 Hf Heq. exfalso.
           pose proof Hb as (_ & _ & Hawf & Halen & _).
           pose proof (c15_atrf_offset0_never_fails asm_cap (s_assembler s) (l_len payload)
                         Hawf Halen asm_cap_pos Hl0) as Hnf.
@@ -303,7 +303,7 @@ Section Proc.
       split.
       + right. rewrite A5, A6, Hws3. split; [reflexivity|].
         unfold tcp_scaled_window. rewrite A2, A7. reflexivity.
-      + intros f Hoff0 Hf Heq. rewrite Hl2. rewrite (Hfin f Hoff0 Hf Heq). reflexivity.
+      + split; [|lia]. intros f Hoff0 Hf Heq. rewrite Hl2. rewrite (Hfin f Hoff0 Hf Heq). reflexivity.
     - (* no ACK: the assembler was and is empty *)
       subst res. apply orb_false_elim in Hack. destruct Hack as (Hk1 & Hk2).
       apply negb_false_iff in Hk1. apply negb_false_iff in Hk2.
@@ -318,6 +318,6 @@ Section Proc.
         destruct (Z.eq_dec off 0) as [Hz|Hnz].
         * destruct (Hexact Hz Hae) as (Hce & _). right. split; [exact Hz | lia].
         * destruct (Hpark ltac:(lia) Hae) as (_ & Hne). congruence.
-      + intros f Hoff0 Hf Heq. rewrite Hl2. rewrite (Hfin f Hoff0 Hf Heq). reflexivity.
+      + split; [|lia]. intros f Hoff0 Hf Heq. rewrite Hl2. rewrite (Hfin f Hoff0 Hf Heq). reflexivity.
   Qed.
 End Proc.
